@@ -7319,6 +7319,19 @@ impl RtpReceiver {
         }
 
         let route_transceiver = transceiver.clone().and_then(|t| t.upgrade());
+
+        // Main track. Publish its channel, then the transport, and only then read the
+        // receiver's state below. set_ssrc(), set_rtx_ssrc(), set_rtx_apt_map() and the
+        // transceiver's set_mid() / update_payload_map() run on the application task
+        // (set_remote_description()) while the connection task attaches the transport
+        // here: they store their value first and register it on the transport only when
+        // both `transport` and `packet_tx` are set. When `packet_tx` was published last,
+        // a value stored after it had been read here but before `packet_tx` appeared was
+        // registered by neither side. The SSRC of a remote answer could be lost that way,
+        // which left the stream to payload-type demultiplexing alone - and every packet
+        // is dropped once another m-section lists the same payload type.
+        let (tx, rx) = mpsc::channel(RTP_RECEIVER_PACKET_CAPACITY);
+        *self.packet_tx.lock() = Some(tx.clone());
         *self.transport.lock() = Some(transport.clone());
         *self.track_ready_event_tx.lock() = event_tx;
         *self.track_ready_transceiver.lock() = transceiver;
@@ -7328,8 +7341,6 @@ impl RtpReceiver {
 
         let mut initial_tracks = Vec::new();
 
-        // Main track
-        let (tx, rx) = mpsc::channel(RTP_RECEIVER_PACKET_CAPACITY);
         let ssrc = *self.ssrc.lock();
         if ssrc != 0 {
             transport.register_listener_sync(ssrc, tx.clone());
@@ -7378,8 +7389,6 @@ impl RtpReceiver {
                 "RTP receiver registered on transport"
             )
         });
-
-        *self.packet_tx.lock() = Some(tx);
 
         initial_tracks.push(ReceiverCommand::AddTrack {
             rid: None,
